@@ -276,6 +276,61 @@ def render_task(p, cfg, rec):
                 z3.And(pc_cond(r.pc), z3.Or(*conds)) if conds else z3.BoolVal(False), inputs=vars_, replay=replay)
 
 
+def wide_table(w, quick):
+    t = [0, (1 << 53) + 1, (1 << 63) + 1, (1 << 63) + 2, (1 << 64) - 2, (1 << 64) - 1]
+    if not quick:
+        t += [1, 1 << 53, (1 << 63) - 1, 1 << 63]
+    if w > 64:
+        t += [1 << 64, (1 << w) - 1]
+    return sorted(set(v for v in t if v < (1 << w)))
+
+
+def wide_render_task(p, cfg, rec):
+    """wide wires (64/72 bits): each sample is table[selector] with a symbolic selector over a table of
+    boundary values (around 2**53, 2**63, 2**64); the path explorer covers every selector combination, each
+    path records and renders concretely, and the independent decoder must give back the samples"""
+    w, n = cfg['w'], cfg['n']
+    table = wide_table(w, p.tier == 'quick')
+    sels = [core.fresh_range('sel@%d' % t, 0, len(table) - 1) for t in range(n)]
+    p.assumptions = list(ctx.assumptions)
+    rec.add('py4hw.logic.simulation.Waveform.get_wavedrom')
+    rec.add('py4hw.logic.simulation.Waveform.clock')
+
+    def record_and_render(vals):
+        with quiet():
+            s = py4hw.HWSystem()
+            x = s.wire('x', w)
+            wvf = Waveform(s, 'wvf', [x])
+            sim = s.getSimulator()
+            for v in vals:
+                x.put(v)
+                sim.clk(1)
+            return wvf.get_wavedrom()
+
+    def scenario():
+        vals = [table[int(sel)] for sel, _ in sels]
+        return vals, record_and_render(vals)
+    res = run_paths(scenario)
+    p.res['states'] += 1
+    p.res['transitions'] += len(res)
+    p.structural('every selector combination explored (%d)' % (len(table) ** n), len([r for r in res if r.exc is None]) == len(table) ** n,
+                 detail={'paths': len(res), 'exceptions': [repr(r.exc) for r in res if r.exc is not None][:3]})
+    bad = []
+    for r in res:
+        if r.exc is not None:
+            continue
+        vals, wd = r.ret
+        try:
+            dec, ncyc = decode_wavedrom(wd, [w])
+            got = list(dec.values())[0][0]
+        except (ValueError, IndexError) as e:
+            bad.append({'samples': [hex(v) for v in vals], 'error': str(e), 'rendering': wd['signal']})
+            continue
+        if got != vals or ncyc != n:
+            bad.append({'samples': [hex(v) for v in vals], 'decoded': [hex(v) for v in got], 'rendering': wd['signal']})
+    p.structural('the rendering of every combination decodes back to the recorded samples', not bad, detail={'failing': bad[:3], 'count': len(bad)})
+
+
 def tasks_for(tier):
     quick = tier == 'quick'
     t = []
@@ -289,6 +344,8 @@ def tasks_for(tier):
         rl += [(['a1'], 7), (['c3'], 4), (['d4'], 3), (['a1', 'b1', 'c3'], 2), (['c3', 'c3'], 3), (['d4'], 0), (['a1', 'b1'], 5)]
     for names, n in rl:
         t.append(('render %s n=%d' % ('+'.join(names), n), render_task, {'wires': names, 'n': n}))
+    for w, n in ([(64, 3), (72, 2)] if quick else [(64, 3), (72, 3), (65, 2), (128, 2)]):
+        t.append(('render a %d-bit wire, %d samples drawn from a table of boundary values by symbolic selectors' % (w, n), wide_render_task, {'w': w, 'n': n}))
     cl = [(['a1', 'c3'], 2, 3), (['a1'], 2, 0), (['c3'], 0, 2)]
     if not quick:
         cl += [(['a1', 'b1'], 3, 3), (['d4'], 1, 1), (['a1', 'c3'], 5, 1), (['c3', 'c3'], 2, 2)]
@@ -305,7 +362,7 @@ def main(argv=None):
         assumptions=['expected samples come from a twin design without recorder, stepped one cycle at a time and read after propagateAll() before each edge',
                      'display format of multi-bit wires is upper-case hexadecimal ({:X}); 1-bit wires are drawn as 0/1 characters'],
         bounds={'capture': 'up to 6 cycles, 6 watch lists (wire, port, duplicates, aliases), 7 call schedules incl. 0 cycles and clear()',
-                'rendering': '1-bit wires up to 5 (7) cycles, 3/4-bit wires up to 3 (4) cycles; every feasible path; also after an earlier recording of 0..5 cycles discarded with clear()'},
+                'rendering': '1-bit wires up to 5 (7) cycles, 3/4-bit wires up to 3 (4) cycles; every feasible path; also after an earlier recording of 0..5 cycles discarded with clear(); wide wires (64/72, thorough 65/128 bits): 2..3 samples, each drawn by a symbolic selector from a table of 6..12 boundary values around 2**53, 2**63, 2**64 and the top of the range (fully symbolic wide values are out of reach: the label format forks over every value)'},
         trusted_base=['z3', 'symx (format/compare forks are path-complete)', 'decoder in checks/c15.py'], task_limit=900)
 
 
